@@ -2,7 +2,7 @@
 # sensitivity regression: every stored seeded change must still be reported by the quick check of (one of) the properties
 # recorded in its meta.json; every stored behaviour-preserving refactor (seeded/benign) must leave every check silent.
 # usage: eval_all_seeds.sh [id-prefix]      e.g. eval_all_seeds.sh C03
-cd /verif
+cd "$(dirname "$0")"
 fail=0
 for d in seeded/${1:-C}*/; do
   id=$(basename $d)
